@@ -60,109 +60,73 @@ Fixpoint verdicts (h : list ev) (n : node) : list bool :=
    What is known about flow f from the history alone:
      FNone              not tracked (never allowed, expired, refused since, or the conntrack was reset);
      FKnown exp d0 fr   tracked: honoured last at exp - timeout, established by a rule in direction d0
-                        (d0 = true: incoming), fr = validated under the rule set currently loaded;
-     FUnknown           only after a packet that arrived at exactly the instant exp, passed, and was also
-                        allowed by a rule in the direction opposite to d0: the flow is tracked, but whether
-                        with direction d0 or the packet's depends on whether the timer wheel evicted the entry
-                        at that very instant.
+                        (d0 = true: incoming), fr = validated under the rule set currently loaded.
+   A packet of f passes iff the address checks pass and: a rule allows it, or f is tracked, now <= exp (idle for
+   no longer than the timeout) and its original direction is valid under the rules now loaded (fr, or re-checked
+   now for this packet's peer). A packet that passes (re)starts the idle period; a refused flow is forgotten.
 
-   A packet of f is judged from this state:
-     Forced b   the verdict must be b;
-     Weak a     (only at the instant exp, and in FUnknown) either verdict, except that a packet allowed by a
-                rule (a = true) must pass. *)
-Inductive fstate := FNone | FKnown (exp : Z) (d0 fr : bool) | FUnknown.
-Inductive judge := Forced (b : bool) | Weak (a : bool).
+   [wr] (wrap resets): true = as the code does, the reload that takes rulesVersion from 65535 to 0 forgets every
+   flow; false = the property as stated (a reload only ever marks flows for revalidation). The two agree on
+   histories without a wrap ([no_wrap]). *)
+Inductive fstate := FNone | FKnown (exp : Z) (d0 fr : bool).
 
 Record sstate := mkS { s_fw : fwcfg; s_now : Z; s_fs : fstate }.
 
 Definition after_rules (now T : Z) (d v : bool) : fstate := if v then FKnown (now + T) d true else FNone.
 
-Definition fl_judge (fw : fwcfg) (now : Z) (fs : fstate) (p : N) (d : bool) (f : tuple) : judge :=
-  if negb (addr_ok (f_rules fw) p f) then Forced false
-  else
-    let a := allowed (f_rules fw) p d f in
-    match fs with
-    | FNone => Forced a
-    | FUnknown => Weak a
-    | FKnown e d0 fr =>
-        let valid := fr || allowed (f_rules fw) p d0 f in
-        if (now <? e)%Z then (if valid then Forced true else Forced a)
-        else if (e <? now)%Z then Forced a
-        else (if valid then Weak a else Forced a)
-    end.
+(* is the tracked state live and valid for this packet's peer? *)
+Definition fl_live (fw : fwcfg) (now : Z) (fs : fstate) (p : N) (f : tuple) : bool :=
+  match fs with
+  | FNone => false
+  | FKnown e d0 fr => negb (e <? now)%Z && (fr || allowed (f_rules fw) p d0 f)
+  end.
 
-Definition fl_next (fw : fwcfg) (now : Z) (fs : fstate) (p : N) (d : bool) (f : tuple) (v : bool) : fstate :=
+Definition fl_verdict (fw : fwcfg) (now : Z) (fs : fstate) (p : N) (d : bool) (f : tuple) : bool :=
+  addr_ok (f_rules fw) p f && (fl_live fw now fs p f || allowed (f_rules fw) p d f).
+
+Definition fl_next (fw : fwcfg) (now : Z) (fs : fstate) (p : N) (d : bool) (f : tuple) : fstate :=
   if negb (addr_ok (f_rules fw) p f) then fs
-  else
-    let a := allowed (f_rules fw) p d f in
-    let T := timeout_of fw f in
-    match fs with
-    | FNone => after_rules now T d v
-    | FUnknown => if v then FUnknown else FNone
-    | FKnown e d0 fr =>
-        let valid := fr || allowed (f_rules fw) p d0 f in
-        if (now <? e)%Z then (if valid then (if v then FKnown (now + T) d0 true else FNone) else after_rules now T d v)
-        else if (e <? now)%Z then after_rules now T d v
-        else if valid then
-          (if v then (if a && xorb d d0 then FUnknown else FKnown (now + T) d0 true) else FNone)
-        else after_rules now T d v
-    end.
+  else if fl_live fw now fs p f then
+    match fs with FKnown _ d0 _ => FKnown (now + timeout_of fw f) d0 true | FNone => FNone end
+  else after_rules now (timeout_of fw f) d (allowed (f_rules fw) p d f).
 
-Definition judge_ok (j : judge) (v : bool) : bool :=
-  match j with Forced b => Bool.eqb v b | Weak a => implb a v end.
-
-Definition s_reload (rs : N) (tcp udp def : Z) (s : sstate) : sstate :=
+Definition s_reload (wr : bool) (rs : N) (tcp udp def : Z) (s : sstate) : sstate :=
   let v := next_ver (f_ver (s_fw s)) in
-  let fs := if N.eqb v 0 then FNone
+  let fs := if wr && N.eqb v 0 then FNone
             else match s_fs s with FKnown e d0 _ => FKnown e d0 false | x => x end in
   mkS (mkFw rs v tcp udp def) (s_now s) fs.
 
-(* [flow_ok f s h vs]: the verdict list vs (one per packet of h, all flows) is what the specification allows for
-   the packets of flow f. *)
-Fixpoint flow_ok (f : tuple) (s : sstate) (h : list ev) (vs : list bool) : bool :=
+Definition s_step (wr : bool) (f : tuple) (e : ev) (s : sstate) : sstate :=
+  match e with
+  | ESleep d => mkS (s_fw s) (s_now s + Z.max 0 d) (s_fs s)
+  | EReload rs tcp udp def => s_reload wr rs tcp udp def s
+  | EPkt p d t =>
+      if tuple_eqb f t then mkS (s_fw s) (s_now s) (fl_next (s_fw s) (s_now s) (s_fs s) p d f) else s
+  end.
+
+(* the verdicts the specification prescribes for the packets of f *)
+Fixpoint flow_fn (wr : bool) (f : tuple) (s : sstate) (h : list ev) : list bool :=
+  match h with
+  | [] => []
+  | EPkt p d t :: r =>
+      if tuple_eqb f t then fl_verdict (s_fw s) (s_now s) (s_fs s) p d f :: flow_fn wr f (s_step wr f (EPkt p d t) s) r
+      else flow_fn wr f s r
+  | e :: r => flow_fn wr f (s_step wr f e s) r
+  end.
+
+(* [flow_ok wr f s h vs]: the verdict list vs (one per packet of h, all flows) is what the specification prescribes
+   for the packets of flow f. *)
+Fixpoint flow_ok (wr : bool) (f : tuple) (s : sstate) (h : list ev) (vs : list bool) : bool :=
   match h with
   | [] => match vs with [] => true | _ => false end
-  | ESleep d :: r => flow_ok f (mkS (s_fw s) (s_now s + Z.max 0 d) (s_fs s)) r vs
-  | EReload rs tcp udp def :: r => flow_ok f (s_reload rs tcp udp def s) r vs
   | EPkt p d t :: r =>
       match vs with
       | [] => false
       | v :: vs' =>
-          if tuple_eqb f t then
-            judge_ok (fl_judge (s_fw s) (s_now s) (s_fs s) p d f) v
-            && flow_ok f (mkS (s_fw s) (s_now s) (fl_next (s_fw s) (s_now s) (s_fs s) p d f v)) r vs'
-          else flow_ok f s r vs'
+          (if tuple_eqb f t then Bool.eqb v (fl_verdict (s_fw s) (s_now s) (s_fs s) p d f) else true)
+          && flow_ok wr f (s_step wr f (EPkt p d t) s) r vs'
       end
-  end.
-
-(* the verdicts the specification forces for the packets of f (a Weak judgement counts as "passes"), and whether
-   every judgement on the way was Forced: then [flow_fn] is the only verdict sequence the specification allows *)
-Definition forced_val (j : judge) : bool := match j with Forced b => b | Weak _ => true end.
-Definition is_forced (j : judge) : bool := match j with Forced _ => true | Weak _ => false end.
-
-Fixpoint flow_fn (f : tuple) (s : sstate) (h : list ev) : list bool :=
-  match h with
-  | [] => []
-  | ESleep d :: r => flow_fn f (mkS (s_fw s) (s_now s + Z.max 0 d) (s_fs s)) r
-  | EReload rs tcp udp def :: r => flow_fn f (s_reload rs tcp udp def s) r
-  | EPkt p d t :: r =>
-      if tuple_eqb f t then
-        let v := forced_val (fl_judge (s_fw s) (s_now s) (s_fs s) p d f) in
-        v :: flow_fn f (mkS (s_fw s) (s_now s) (fl_next (s_fw s) (s_now s) (s_fs s) p d f v)) r
-      else flow_fn f s r
-  end.
-
-Fixpoint boundary_free (f : tuple) (s : sstate) (h : list ev) : bool :=
-  match h with
-  | [] => true
-  | ESleep d :: r => boundary_free f (mkS (s_fw s) (s_now s + Z.max 0 d) (s_fs s)) r
-  | EReload rs tcp udp def :: r => boundary_free f (s_reload rs tcp udp def s) r
-  | EPkt p d t :: r =>
-      if tuple_eqb f t then
-        let j := fl_judge (s_fw s) (s_now s) (s_fs s) p d f in
-        is_forced j
-        && boundary_free f (mkS (s_fw s) (s_now s) (fl_next (s_fw s) (s_now s) (s_fs s) p d f (forced_val j))) r
-      else boundary_free f s r
+  | e :: r => flow_ok wr f (s_step wr f e s) r vs
   end.
 
 (* no packet of flow f in h is allowed by the rule set loaded when it arrives (rs: the one loaded at the start) *)
@@ -208,6 +172,14 @@ Definition spec_boot (rs v0 : N) (tcp udp def : Z) (t0 : Z) : sstate := mkS (mkF
 
 Definition elapsed (h : list ev) : Z :=
   fold_right (fun e acc => match e with ESleep d => (Z.max 0 d + acc)%Z | _ => acc end) 0%Z h.
+
+(* no reload of h takes the rules version (v at the start) from 65535 to 0 *)
+Fixpoint no_wrap (v : N) (h : list ev) : bool :=
+  match h with
+  | [] => true
+  | EReload _ _ _ _ :: r => negb (N.eqb (next_ver v) 0) && no_wrap (next_ver v) r
+  | _ :: r => no_wrap v r
+  end.
 
 Definition is_reload (e : ev) : bool := match e with EReload _ _ _ _ => true | _ => false end.
 Definition on_flow (f : tuple) (e : ev) : bool := match e with EPkt _ _ t => tuple_eqb f t | _ => false end.
